@@ -5460,6 +5460,14 @@ class CodegenCtx:
         else:
             return f"state->c.{out_expr.name}[{index_expr}]"
 
+    def _generate_buflike_read_expr(self, out_expr: OutputStorage, index_expr: str):
+        """
+        Like _generate_buflike_index_expr, but as an rvalue which is always the (unsigned) byte value, regardless of the string char type
+        """
+        if out_expr.holds_a(OutputStorageType.RAW):
+            return self._generate_buflike_index_expr(out_expr, index_expr)
+        return f"((uint8_t){self._generate_buflike_index_expr(out_expr, index_expr)})"
+
     def _generate_buflike_length_expr(self, out_expr: OutputStorage, include_null=False):
         if out_expr.holds_a(OutputStorageType.RAW):
             return f"sizeof(state->c.{out_expr.name})"
@@ -5489,7 +5497,7 @@ class CodegenCtx:
             return f"state->{intexpr.ref.name}_counter";
         elif isinstance(intexpr, StringRefIntegerExpr):
             index = self._generate_code_for_int_expr(intexpr.index, ctx)
-            text = self._generate_buflike_index_expr(intexpr.ref, index)
+            text = self._generate_buflike_read_expr(intexpr.ref, index)
             size_str = self._generate_buflike_length_expr(intexpr.ref)
             if ProgramData.do(ProgramFlag.UNSAFE_STRING_INDEXING):
                 return text
